@@ -272,8 +272,9 @@ class Session:
         ev = {"property_id": self.pid, "tier": self.tier, "seed": int(self.seed), "level": self.level,
               "coverage": cov, "assumptions": self.assumptions, "wall_s": round(time.time() - self.t0, 3),
               "violations": len(self.violations)}
-        os.makedirs(os.path.join(HERE, "evidence"), exist_ok=True)
-        with open(os.path.join(HERE, "evidence", self.pid + ".json"), "w") as fp:
+        evdir = os.environ.get("VERIF_EVIDENCE_DIR") or os.path.join(HERE, "evidence")   # development runs against a mutated copy write elsewhere
+        os.makedirs(evdir, exist_ok=True)
+        with open(os.path.join(evdir, self.pid + ".json"), "w") as fp:
             json.dump(_jsonable(ev), fp, indent=1)
         print("%s tier=%s: obligations=%d discharged=%d canaries=%d/%d bounded_evals=%d crosschecks=%d wall=%.1fs"
               % (self.pid, self.tier, n_ob, discharged, canaries_refuted, len(self.canaries), b_eval,
